@@ -412,22 +412,49 @@ def r20_6(ctx):
         for outer in cfg.enclosing(st):
             if isinstance(outer, ast.For):
                 conj.add("for-in " + unparse(_inline(outer.iter, fdefs, module=f.module)))
-        if not (isinstance(st.value, ast.Constant) and st.value.value is True):
-            for lit in _conjuncts(_nnf(_inline(st.value, fdefs, module=f.module), True)):
-                ast.fix_missing_locations(lit)
-                conj.add(unparse(lit))
-        truth_paths.append(conj)
+        if isinstance(st.value, ast.Constant) and st.value.value is True:
+            truth_paths.append(conj)
+            continue
+        # ``return A and (B or C)`` answers True on the paths {A, B} and {A, C}
+        import itertools
+
+        from ..refguards import _disjuncts
+
+        choices = []
+        for lit in _conjuncts(_nnf(_inline(st.value, fdefs, module=f.module), True)):
+            alts = []
+            for dj in _disjuncts(lit):
+                parts = set()
+                for sub in _conjuncts(dj):
+                    ast.fix_missing_locations(sub)
+                    parts.add(unparse(sub))
+                alts.append(parts)
+            choices.append(alts)
+        for combo in itertools.islice(itertools.product(*choices), 64):
+            path = set(conj)
+            for parts in combo:
+                path |= parts
+            truth_paths.append(path)
     # a plain Blockwise observes its inputs' grid (a) when it is not aligned at lowering (map_blocks: block_info payloads)
     # and (b) when adjust_chunks holds a per-block tuple - a literal with one entry per INPUT block
     consults_alignment = any("type(self) is Blockwise" in cj and any("align_arrays" in c and c.startswith("not ") for c in cj) for cj in truth_paths)
-    consults_literal = any(
-        "type(self) is Blockwise" in cj and "adjust_chunks" in " ".join(sorted(cj)) and any(("tuple" in c or "list" in c) and "isinstance" in c for c in cj)
-        for cj in truth_paths
-    )
+    literal_paths = [cj for cj in truth_paths if "adjust_chunks" in " ".join(sorted(cj)) and any(("tuple" in c or "list" in c) and "isinstance" in c for c in cj)]
+    consults_literal = bool(literal_paths)
+    # subclasses of Blockwise carry per-block tuples too (sliding_window_view builds one per axis): the clause must not be
+    # confined to a plain Blockwise
+    literal_for_subclasses = any(not any("type(self) is Blockwise" in c for c in cj) for cj in literal_paths)
     if not consults_alignment:
         ctx.finding(rr, site(f), f"Blockwise._requires_grid_preservation returns {rets}; it no longer declares an un-aligned plain Blockwise grid sensitive (`type(self) is Blockwise and not self.align_arrays`)", func=f)
     c2 = site(f) + "::per-block adjust_chunks tuple"
-    rr.inst(c2, consulted=consults_literal)
+    rr.inst(c2, consulted=consults_literal, also_for_subclasses=literal_for_subclasses)
+    if consults_literal and not literal_for_subclasses:
+        ctx.finding(
+            rr, c2 + " (subclasses)",
+            "the per-block adjust_chunks clause of Blockwise._requires_grid_preservation is confined to `type(self) is Blockwise`, but subclasses carry per-block tuples as well: "
+            "sliding_window_view builds a SlidingWindowView with one tuple per axis, and nanmax(sliding_window_view(s1, 6, axis=0), axis=-1)[::-1, ::-1] over a rolling sum s1 raised "
+            "'Dimension 1 has 4 blocks, adjust_chunks specified with 7 blocks'",
+            func=f,
+        )
     if not consults_literal:
         ctx.finding(
             rr, c2,
